@@ -4,3 +4,4 @@ import rules_c04
 import rules_incr
 import rules_watch
 import rules_exit
+import rules_config
